@@ -200,7 +200,17 @@ def _str_to_set(
     if isinstance(value, str):
         return {value}
     if hasattr(value, "__iter__"):
-        return set(value)
+        try:
+            return set(value)
+        except TypeError as error:
+            # An item that cannot be hashed (a list or a table nested inside of
+            # a TOML array, for instance) is never a valid item.
+            raise GlobalLicensingParseTypeError(
+                _(
+                    "Item in collection must not be a collection itself (got"
+                    " {value})."
+                ).format(value=repr(value))
+            ) from error
     return {value}
 
 
@@ -407,6 +417,11 @@ class ReuseTOML(GlobalLicensing):
 
         annotation_dicts = values.get("annotations", [])
         try:
+            # The container must have the right shape before its items can be
+            # turned into AnnotationsItem objects.
+            _validate_collection_of(list, dict, optional=True)(
+                None, attrs.fields(cls).annotations, annotation_dicts
+            )
             annotations = [
                 AnnotationsItem.from_dict(annotation)
                 for annotation in annotation_dicts
